@@ -85,6 +85,12 @@ func recurseValidationCode(att *expr.AttributeExpr, put expr.UserType, attCtx *A
 		ut, isUT = att.Type.(expr.UserType)
 	)
 
+	// validateAttribute starts a new traversal with a nil map (an alias of
+	// an alias is a user type whose attribute is a user type again)
+	if seen == nil {
+		seen = make(map[string]*bytes.Buffer)
+	}
+
 	// Break infinite recursions
 	if isUT {
 		if buf, ok := seen[ut.ID()]; ok {
@@ -286,7 +292,18 @@ func validationCode(att *expr.AttributeExpr, attCtx *AttributeContext, req, alia
 		tval = "*" + tval
 	}
 	if alias {
-		tval = fmt.Sprintf("%s(%s)", att.Type.Name(), tval)
+		// cast to the underlying primitive: the attribute of an alias of
+		// an alias is a user type again, whose name means nothing in the
+		// transport packages
+		base := att.Type
+		for {
+			ut, ok := base.(expr.UserType)
+			if !ok {
+				break
+			}
+			base = ut.Attribute().Type
+		}
+		tval = fmt.Sprintf("%s(%s)", base.Name(), tval)
 	}
 	data := map[string]any{
 		"attribute": att,
